@@ -54,8 +54,8 @@ theorem good_annotated {g : GCtx} (hg : GOK g) (ip : Bool) (t : Ty) (as : List S
     have hAnn : "Annotated" ∈ g.adds := hsub _ (by simp [tyAdds])
     have hsp : special d "Annotated" = .annotated := by
       rw [special_of_single henv (by decide) (adds_not_alias hg hAnn)]; rfl
-    obtain ⟨pre, hp1, hp2⟩ := ih3 d (henv.mono (by intro x hx; simp [tyAdds, hx]))
-    refine ⟨.annotated pre as, ?_, ?_⟩
+    obtain ⟨pre, hp1, hp2, _⟩ := ih3 d (henv.mono (by intro x hx; simp [tyAdds, hx]))
+    refine ⟨.annotated pre as, ?_, ?_, headOK_empty rfl⟩
     · have he : tyExpr ip (.annotated t as) = .sub (.name "Annotated") (tyExpr ip t :: as.map annExpr) := by
         simp [tyExpr]
       rw [he]
